@@ -103,6 +103,7 @@ CLAIM = {
     "technique": "static: abstract interpretation of create/verification_scalars/verify into symbolic terms; comparison with reference round and recurrence; twin-round agreement",
     "text": "For every length 2^k the code's round is the reference round (a statement about expressions over symbolic half-length h): "
     "cross terms, folds of a, b, G, H with u / u^-1 and the factor vectors, challenge order, the verifier's subset-product recurrence and "
-    "the shape guards. The first-round fast path is tied to the generic path by substituting unit factors.",
-    "note": "trusted: folding theorem of the inner-product argument; arkworks algebra; reference in rules/ipp.py",
+    "the shape guards. The first-round fast path is tied to the generic path by substituting unit factors. The inductive step of the folding theorem "
+    "(<a',G'>+<b',H'>+<a',b'>Q = u^2 L + P + u^-2 R) is checked as a formal-sum identity on the extracted rounds.",
+    "note": "trusted: equivalence of explicit generator folding with the s-vector form; induction over rounds (elementary); arkworks algebra; reference in rules/ipp.py",
 }
